@@ -172,7 +172,7 @@ impl<K: KeyT, V: ValT> MapWorld<K, V> {
                     vio!(self, class, "parallel mutable traversal visited {} elements, the map holds {n}", cnt.load(Ordering::SeqCst));
                 }
                 for e in self.slots[si].model.e.iter_mut() {
-                    e.v ^= TOGGLE;
+                    e.v ^= Self::TG;
                 }
             }
             7..=10 | 12 => {
@@ -256,10 +256,10 @@ impl<K: KeyT, V: ValT> MapWorld<K, V> {
                 // par_extend = sequential extend, also for sources with repeated keys (last value wins):
                 // even decisions use another map's into_par_iter (through the owned bridge), odd ones a Vec
                 // with duplicates (rayon's indexed bridge on the pinned pool splits it into chunks)
-                let mut pairs: Vec<(u32, u32)> = self.slots[ti].model.e.iter().map(|e| (e.kid, e.v ^ 1)).chain(std::iter::once((op.b as u32 % K::UNIVERSE, 7))).collect();
+                let mut pairs: Vec<(u32, u32)> = self.slots[ti].model.e.iter().map(|e| (e.kid, Self::nv(e.v ^ 1))).chain(std::iter::once((op.b as u32 % K::UNIVERSE, Self::nv(7)))).collect();
                 let from_vec = op.b % 2 == 1;
                 if from_vec {
-                    let dups: Vec<(u32, u32)> = pairs.iter().enumerate().map(|(i, p)| (p.0, p.1 ^ (0x100 + i as u32))).collect();
+                    let dups: Vec<(u32, u32)> = pairs.iter().enumerate().map(|(i, p)| (p.0, Self::nv(p.1 ^ (0x100 + i as u32)))).collect();
                     pairs.extend(dups);
                     for (i, d) in op.v.iter().enumerate() {
                         if pairs.len() > 1 {
